@@ -1416,7 +1416,8 @@ class Interp:
         if gen.startswith("core::num::<impl ") and short(gen) in ("next_multiple_of", "next_power_of_two", "max", "min", "pow", "abs", "unsigned_abs",
                                                                   "wrapping_add", "wrapping_sub", "wrapping_mul", "checked_add", "checked_sub", "checked_mul", "saturating_sub",
                                                                   "wrapping_rem", "wrapping_div", "wrapping_shl", "wrapping_shr", "wrapping_neg", "wrapping_abs", "checked_div", "checked_rem",
-                                                                  "checked_neg", "checked_shl", "checked_shr"):
+                                                                  "checked_neg", "checked_shl", "checked_shr", "checked_rem_euclid", "checked_div_euclid",
+                                                                  "wrapping_rem_euclid", "wrapping_div_euclid"):
             m = short(gen)
             ty = gen[len("core::num::<impl "):].split(">")[0]
             a0 = self.ev(args[0], env, depth)
@@ -1464,6 +1465,18 @@ class Interp:
                 if not 0 <= rest[0] < bits:
                     return Enum("Option", "None")
                 return Enum("Option", "Some", {"0": wrapv(a0 << rest[0]) if m == "checked_shl" else (a0 >> rest[0])})
+            if m in ("checked_rem_euclid", "checked_div_euclid", "wrapping_rem_euclid", "wrapping_div_euclid"):
+                if rest[0] == 0:
+                    if m.startswith("checked_"):
+                        return Enum("Option", "None")
+                    raise Unknown("core::panicking: attempt to divide by zero")
+                rm_ = a0 % abs(rest[0])
+                q_ = (a0 - rm_) // abs(rest[0])
+                r = rm_ if "rem" in m else (q_ if rest[0] > 0 else -q_)
+                overflow = ty.startswith("i") and a0 == lo and rest[0] == -1
+                if m.startswith("wrapping_"):
+                    return wrapv(r)
+                return Enum("Option", "None") if overflow else Enum("Option", "Some", {"0": r})
             if m in ("wrapping_div", "wrapping_rem", "checked_div", "checked_rem"):
                 if rest[0] == 0:
                     if m.startswith("checked_"):
